@@ -119,6 +119,16 @@ def run(src, q):
         r.l2 = [act_fields(a) for a in sp2.actions]
         with stubs.sut():
             r.got = [act_fields(sp1.get_action(i)) for i in range(len(sp1.actions))]
+        # another scenario of the same name (same sizes, other definitions: every cost + 1)
+        import copy
+        from nasim.scenarios.scenario import Scenario
+        sd2 = dict(w.scenario_dict)
+        sd2[u.EXPLOITS] = {k: dict(v, **{u.EXPLOIT_COST: v[u.EXPLOIT_COST] + 1}) for k, v in sd2[u.EXPLOITS].items()}
+        sd2[u.PRIVESCS] = {k: dict(v, **{u.PRIVESC_COST: v[u.PRIVESC_COST] + 1}) for k, v in sd2[u.PRIVESCS].items()}
+        sd2[u.SERVICE_SCAN_COST] = sd2[u.SERVICE_SCAN_COST] + 1
+        with stubs.sut():
+            sp3 = m_act.FlatActionSpace(Scenario(sd2, name=w.scenario.name))
+        r.l3 = [act_fields(a) for a in sp3.actions]
         return r
     if q['kind'] == 'mask':
         with stubs.sut():
@@ -222,6 +232,18 @@ def obligations(r):
         obl.append(('index_mapping_same_for_two_constructions',
                     z3.And([_feq(x, y, KEYS) for x, y in zip(r.l1, r.l2)]) if len(r.l1) == len(r.l2) else z3.BoolVal(False)))
         obl.append(('get_action_is_list_index', z3.And([_feq(x, y, KEYS) for x, y in zip(r.l1, r.got)])))
+        # same name, other definitions: costs of exploits / escalations / service scans are one higher
+        if len(r.l3) == len(r.l1):
+            cs = []
+            for x, y in zip(r.l1, r.l3):
+                if x['kind'] in ('Exploit', 'PrivilegeEscalation', 'ServiceScan'):
+                    cs.append(y['cost'] == x['cost'] + 1)
+                else:
+                    cs.append(y['cost'] == x['cost'])
+                cs.append(z3.BoolVal(x['kind'] == y['kind']))
+            obl.append(('scenario_of_same_name_gets_its_own_actions', z3.And(cs)))
+        else:
+            obl.append(('scenario_of_same_name_gets_its_own_actions', z3.BoolVal(False)))
         return obl
     if q['kind'] == 'mask':
         obl.append(('mask_length', z3.BoolVal(len(r.mask) == r.n)))
